@@ -35,6 +35,8 @@ theorem frame_mergeNodes (s : Store) (h : Inv s) (g nid g2 g' : String) (pol : O
     split
     · exact R
     · rename_i v hv
+      split
+      · exact R
       have hnu := findNode_not_in s h g g' nid u hu h1
       have hnv := findNode_not_in s h g2 g' nid v hv h2
       have hcon : Frames g' s (contract u v s) := by
